@@ -45,6 +45,11 @@ Proof. exact isz_lawful. Qed.
 Theorem c03_iaa_lawful : lawful iaa_update iaa_push asize iaa_modify ax asm amod_act zsum iaa_pending.
 Proof. exact iaa_lawful. Qed.
 
+(** the positional-hash item (order-sensitive aggregate: exchanging the children changes it; lazy add) satisfies the
+    interface, with the aggregate of a sequence computed directly on the list by Horner evaluation modulo hP *)
+Theorem c03_ihash_lawful : lawful ihs_update ihs_push hsz ihs_modify hx ihs_agg Z.add hashagg ihs_pending.
+Proof. exact ihs_lawful. Qed.
+
 (** on every correspondence case, agreement with the model implies the list-of-lists specification: the batch lemma
     about the model carries the specification to the implementation by proof *)
 Theorem c03_model_check_spec_check : forall c : case, model_check c = true -> spec_check c = true.
